@@ -10,6 +10,7 @@ scope, by the caller's rollback, or by the caller's commit.  Observed: exception
 the database on the same connection before the transaction ends and on a fresh connection afterwards.
 Compared exactly with Model.BatchFail.run_batch; the decider check_C11 is applied to the observation.
 """
+import asyncio
 import json
 import os
 import random
@@ -24,7 +25,8 @@ COQ = dict(imports=["Model.BatchFail", "Spec.C11"], in_ty="input", out_ty="outpu
            corr="corr_C11", decide="check_C11", model="model_out")
 THEOREMS = ["C11_decider_sound", "C11_no_row_lost", "C11_original_untouched", "C11_tmp_gone_partial",
             "C11_tmp_gone_refuted", "C11_tmp_resurrected", "C11_natural_copy_failure", "C11_others_untouched",
-            "C11_txddl_rollback_restores", "C11_holds_partial", "C11_no_row_lost_obs"]
+            "C11_txddl_rollback_restores", "C11_holds_partial", "C11_no_row_lost_obs",
+            "C11_exception_class_irrelevant", "C11_transactional_ddl_irrelevant"]
 TRUSTED = [
     "the database is SQLite's, not Alembic's: its behaviour enters as the statement semantics of Model/BatchFail.v "
     "(apply_stmt: tables as name -> (definition, rows, indexes); NOT NULL / UNIQUE / CHECK(col >= k) enforced by INSERT..SELECT; "
@@ -71,8 +73,29 @@ LEVEL_NOTE = ("Trusted: Coq kernel + vm_compute, the statement/transaction seman
 TMPP = "_alembic_tmp_"
 
 
+
+
+
 class Injected(Exception):
     pass
+
+
+# exceptions that are NOT Exception subclasses: Ctrl-C during a long copy, sys.exit from a signal handler, task cancellation
+class InjectedKI(KeyboardInterrupt):
+    pass
+
+
+class InjectedSE(SystemExit):
+    pass
+
+
+class InjectedCE(asyncio.CancelledError):
+    pass
+
+
+FCLS = {"exc": Injected, "ki": InjectedKI, "se": InjectedSE, "ce": InjectedCE}
+FCLS_ORDER = ["exc", "ki", "se", "ce"]
+TDDL_ORDER = [None, True, False]
 
 
 # ----------------------------------------------------------------------------- scenarios
@@ -192,30 +215,43 @@ def n_index_stmts(scn):
     return len([i for i in scn["indexes"] if i["name"] not in dropped]) + len([o for o in scn["ops"] if o[0] == "create_index"])
 
 
-def cross(scn, light=False):
+def cross(scn, light=False, full=False, start=0):
+    """every transaction setting x every fault set; the exception class of the injected faults and the context option
+    transactional_ddl either fully crossed (full) or rotated so that consecutive cases run through all 12 combinations"""
     n = 4 + n_index_stmts(scn)
     faultsets = [[]] + [[k] for k in range(n + 2)] + [[1, 2], [2, 3], [0, 1], [1, 3]]
     settings = SETTINGS if not light else [SETTINGS[1], SETTINGS[2], SETTINGS[6]]
+    cnt = start
     for (kind, pre, scope) in settings:
         for fs in faultsets:
-            h = dict(scn)
-            h.update(kind=kind, pre=pre, scope=scope, faults=fs)
-            yield h
+            if full and fs:
+                variants = [(td, c) for td in TDDL_ORDER for c in FCLS_ORDER]
+            elif full:
+                variants = [(td, "exc") for td in TDDL_ORDER]
+            else:
+                variants = [(TDDL_ORDER[cnt % 3], FCLS_ORDER[cnt % 4])]
+            for (td, c) in variants:
+                h = dict(scn)
+                # a double fault: the first position raises class c, the handler's position the next class
+                fc = [FCLS_ORDER[(FCLS_ORDER.index(c) + j) % 4] for j in range(len(fs))]
+                h.update(kind=kind, pre=pre, scope=scope, faults=fs, fcls=fc, tddl=td)
+                yield h
+            cnt += 1
 
 
 def generate(tier, seed):
     rnd = random.Random(seed * 7919 + 11)
-    for s in fixed_scenarios():
-        yield from cross(s)
-    nrand = 16 if tier == "quick" else 220
-    for _ in range(nrand):
-        yield from cross(rand_scenario(rnd))
+    for k, s in enumerate(fixed_scenarios()):
+        yield from cross(s, full=(k == 0 or (tier != "quick" and k < 4)), start=k)
+    nrand = 16 if tier == "quick" else 200
+    for k in range(nrand):
+        yield from cross(rand_scenario(rnd), start=5 * k)
 
 
 def search(tier, seed):
     rnd = random.Random(seed * 104729 + 11)
     for _ in range(60):
-        yield from cross(rand_scenario(rnd), light=True)
+        yield from cross(rand_scenario(rnd), light=True, full=False, start=_)
 
 
 # ----------------------------------------------------------------------------- plan derived from the operations (harness side)
@@ -327,7 +363,7 @@ def obsc(ob):
                                            cf.lst(cf.string(x) for x in t["idx"])) for n, t in sorted(ob.items()))
 
 
-ERRC = {None: "None", "Injected": "(Some EInjected)", "IntegrityError": "(Some EIntegrity)",
+ERRC = {None: "None", "Injected": "(Some EInjected)", "Interrupt": "(Some EInterrupt)", "IntegrityError": "(Some EIntegrity)",
         "OperationalError": "(Some EOperational)"}
 
 TAG_OLD, TAG_NEW, TAG_P, TAG_LEFT, TAG_UNKNOWN = 10, 11, 12, 13, 99
@@ -516,7 +552,7 @@ def run_case(h):
 
         log = []
         armed = [False]
-        fs = set(h["faults"])
+        fs = dict(zip(h["faults"], h.get("fcls") or ["exc"] * len(h["faults"])))
 
         @event.listens_for(e, "before_cursor_execute")
         def bce(conn, cur, stmt, params, ctx, many):
@@ -528,7 +564,7 @@ def run_case(h):
             pos = len(log)
             log.append(k)
             if pos in fs:
-                raise Injected("injected at %d" % pos)
+                raise FCLS[fs[pos]]("injected at %d" % pos)
 
         err = None
         conn = e.connect()
@@ -542,11 +578,14 @@ def run_case(h):
                 raise ValueError("own scope with a transaction already open")
             armed[0] = True
             try:
-                op = Operations(MigrationContext.configure(conn))
+                opts = {} if h.get("tddl") is None else {"transactional_ddl": bool(h["tddl"])}
+                op = Operations(MigrationContext.configure(conn, opts=opts))
                 with op.batch_alter_table(tname, recreate="always") as b:
                     apply_ops(sa, b, scn)
             except Injected:
                 err = "Injected"
+            except (InjectedKI, InjectedSE, InjectedCE):
+                err = "Interrupt"
             except sa.exc.IntegrityError:
                 err = "IntegrityError"
             except sa.exc.OperationalError:
@@ -590,19 +629,23 @@ def run_case(h):
           ("p", tablec(TAG_P, P_DEF, [[1]], [dict(name="ix_p", cols=[0], unique=False)]))]
     if leftover:
         db.append((tmpn, tablec(TAG_LEFT, LEFT_DEF, [[42]], [])))
-    cin = "(mkIn %s %s %s %s %s %s %s %s %s)" % (
+    fpairs = list(zip(h["faults"], h.get("fcls") or ["exc"] * len(h["faults"])))
+    cin = "(mkIn %s %s %s %s %s %s %s %s %s %s)" % (
         {"pysqlite": "Pysqlite", "txddl": "TxDDL"}[h["kind"]], cf.boolean(h["pre"]),
         cf.lst("(%s, Some %s)" % (cf.string(n), t_) for n, t_ in db), cf.string(tname),
         defc(TAG_OLD if same_def else TAG_NEW, nd),
         cf.lst("(TCol %s)" % nat(x) if k == "col" else "(TConst %s)" % val(x) for k, x in tr),
-        cf.lst(idxc(i) for i in ixs), natl(h["faults"]),
-        {"own": "OwnScope", "rollback": "(Caller Rollback)", "commit": "(Caller Commit)"}[h["scope"]])
+        cf.lst(idxc(i) for i in ixs),
+        cf.lst("(%s, %s)" % (nat(k), "EInjected" if c == "exc" else "EInterrupt") for k, c in fpairs),
+        {"own": "OwnScope", "rollback": "(Caller Rollback)", "commit": "(Caller Commit)"}[h["scope"]],
+        "None" if h.get("tddl") is None else "(Some %s)" % cf.boolean(h["tddl"]))
     errc = ERRC.get(err, "(Some EOther)")
     cout = "(mkOut %s %s %s %s)" % (errc, cf.lst(skindc(k) for k in log), obsc(mid), obsc(final))
     out = dict(err=err, log=[list(k) for k in log], mid=mid, final=final)
-    shape = "%s%s-%s-%s-%s" % (h["kind"], "+pre" if h["pre"] else "", h["scope"],
-                               "nofault" if not h["faults"] else "f%d" % len(h["faults"]),
-                               (err or "ok").split(":")[0])
+    shape = "%s%s-%s-tddl%s-%s-%s" % (h["kind"], "+pre" if h["pre"] else "", h["scope"],
+                                      {None: "U", True: "T", False: "F"}[h.get("tddl")],
+                                      "nofault" if not h["faults"] else "f%d%s" % (len(h["faults"]), (h.get("fcls") or ["exc"])[0]),
+                                      (err or "ok").split(":")[0])
     return dict(cin=cin, cout=cout, out=out, nontrivial=bool(err is not None and scn["rows"]), shape=shape)
 
 
